@@ -16,13 +16,13 @@ LEVEL_TEXT = ("Lean theorems over Model/Fluent.lean (node arrays as dims + posit
               "has the documented dims and evaluates, under every interpretation of the payload functions, to the payload applied to the "
               "values along the dimension in coordinate order; for every batchable payload, every batch size and every dimension size the "
               "iterated batching of reduce/_batch_transform terminates (batch_size >= 2) and changes neither dims nor any value; the batched "
-              "mean is sum/n over exact rationals and the std rewrite is the population variance identity; shape and value theorems for map, "
-              "select/iselect, broadcast, join, arithmetic, expand. Unbounded in array shape, dimension size and batch size; tied to the real "
+              "mean is sum/n over exact rationals and the batched std is pow(.,1/2) of the population variance; shape and value theorems for "
+              "map (+yields), select/iselect, broadcast, join, arithmetic between actions, stack/concatenate. Unbounded in array shape, dimension size and batch size; tied to the real "
               "fluent API by a structural correspondence check on unfolded graphs.")
 LEVEL_NOTE = ("modelled, not verified: fluent.py Action.{map,reduce,sum..std,stack,concatenate,flatten,select,iselect,expand,transform,"
               "broadcast,join,add..power}, Node.__init__ argument insertion, _batch_transform, _expand_transform, _combine_nodes, from_source; "
               "xarray's own dims/coords bookkeeping is mirrored by hand for the cases the generator reaches (others are reported as out of "
-              "scope and counted); float rounding is outside (exact Fractions; tolerance 1e-9 only for programs containing std); batchability "
+              "scope and counted); float rounding is outside (exact Fractions; tolerance only for programs containing std, stated in the evidence); batchability "
               "of backend functions is a hypothesis here (C15 proves it per function); reductions over a dimension of size 1 are outside the "
               "property's quantifier (a backend function applied to one array reduces the array itself)")
 TECHNIQUE = "Lean 4 proof by induction on the batching recursion over an executable model + structural differential correspondence of unfolded graphs + NumPy oracle"
@@ -109,7 +109,7 @@ def check_program(prog):
     interp = F.Interp(prog)
     out = []
     for k, (r, rf) in enumerate(zip(real, refs)):
-        v = F.oracle_stmt(prog, k, r, rf, interp)
+        v = F.oracle_stmt(prog, k, r, rf, interp, F.float_scale(prog, k, refs))
         if v:
             out.append((k, v[0], v[1]))
     return real, refs, out
@@ -142,7 +142,7 @@ def compare_model(ctx, progs, reals):
 def correspond(ctx):
     from ekw import c13_fluent as F
     from ekw.core import CORPUS_DIR
-    n = ctx.budget(160, 5000)
+    n = ctx.budget(300, 5000)
     max_ops = ctx.budget(4, 6)
     progs = list(_known_witnesses())
     for f in sorted(glob.glob(str(CORPUS_DIR / "C13_*.json"))):
@@ -186,7 +186,7 @@ def correspond(ctx):
             ctx.violation(sig, {"prog": small, "statement": kk}, txt)
             break   # later statements of the same program usually fail for the same reason
     compare_model(ctx, progs, reals)
-    ctx.extra["tolerance"] = "exact Fractions; 1e-9 relative/absolute only for programs containing std (float mode)"
+    ctx.extra["tolerance"] = "exact Fractions; only programs containing std run on floats: rtol 1e-7, atol 1e-6 x magnitude of the operand, and nan accepted where NumPy gives |std| <= 1e-4 x magnitude (cancellation in the rewrite: float rounding is outside the property)"
 
 
 def _depth(p):
